@@ -58,16 +58,16 @@ theorem applyExtenders_ring_area (within : Lookup) (r : Rec) (hcirc : r.circular
 /-- the stages of a successful run on a record with genes -/
 theorem detectStages_ok (within : Lookup) (r : Rec) (rules : List RuleM) (s : Stages)
     (hne : r.genes.isEmpty = false) (h : detectStages within r rules = .ok s) :
-    ∃ (res : RuleResults) (found0 : List (List PC)) (found ext : List PC) (d : Doms) (kept merged : List PC),
+    ∃ (res : RuleResults) (found0 : List (List PC)) (found ext0 : List PC) (d : Doms) (ext kept : List PC),
       ((rules.map fun rule => (rule.name, dedupIds (hitsFor res rule.name))).filter fun x => !x.2.isEmpty).mapM
         (fun x => do
           let rule ← findRule rules x.1
           clustersOfRule r rule x.2) = .ok found0 ∧
       mergeOverOrigin r rules found0.flatten = .ok found ∧
-      applyExtenders within r rules found = .ok (ext, d) ∧
+      applyExtenders within r rules found = .ok (ext0, d) ∧
+      mergeOverOrigin r rules ext0 = .ok ext ∧
       removeRedundant within rules ext = .ok kept ∧
-      mergeOverOrigin r rules kept = .ok merged ∧
-      s.final.map (·.pc) = merged := by
+      s.final.map (·.pc) = kept := by
   unfold detectStages at h
   simp only [hne, Bool.false_eq_true, if_false] at h
   split at h
@@ -75,12 +75,12 @@ theorem detectStages_ok (within : Lookup) (r : Rec) (rules : List RuleM) (s : St
     obtain ⟨res, _, h⟩ := bind_ok h
     obtain ⟨found0, hf0, h⟩ := bind_ok h
     obtain ⟨found, hf, h⟩ := bind_ok h
-    obtain ⟨⟨ext, d⟩, hext, h⟩ := bind_ok h
+    obtain ⟨⟨ext0, d⟩, hext, h⟩ := bind_ok h
+    obtain ⟨ext, hm, h⟩ := bind_ok h
     obtain ⟨kept, hk, h⟩ := bind_ok h
-    obtain ⟨merged, hm, h⟩ := bind_ok h
     simp only [pure, Except.pure, Except.ok.injEq] at h
     subst h
-    exact ⟨res, found0, found, ext, d, kept, merged, hf0, hf, hext, hk, hm, by simp [List.map_map, Function.comp_def]⟩
+    exact ⟨res, found0, found, ext0, d, ext, kept, hf0, hf, hext, hm, hk, by simp [List.map_map, Function.comp_def]⟩
 
 /-- **the reported protoclusters on any circular record** -/
 theorem detectStages_ring (within : Lookup) (r : Rec) (hcirc : r.circular = true) (hL : 0 < r.len) (rules : List RuleM)
@@ -96,7 +96,7 @@ theorem detectStages_ring (within : Lookup) (r : Rec) (hcirc : r.circular = true
     subst h
     exact ⟨(by intro o ho; cases ho), List.Pairwise.nil⟩
   | false =>
-    obtain ⟨res, found0, found, ext, d, kept, merged, hf0, hf, hext, hk, hm, hfin⟩ :=
+    obtain ⟨res, found0, found, ext0, d, ext, kept, hf0, hf, hext, hm, hk, hfin⟩ :=
       detectStages_ok within r rules s hne h
     have a0 : ∀ pc ∈ found0.flatten, RingArea r.len pc.core := by
       intro pc hpc
@@ -109,13 +109,13 @@ theorem detectStages_ring (within : Lookup) (r : Rec) (hcirc : r.circular = true
         simp only [hr] at hfx
         exact clustersOfRule_ring_area r hcirc hL rule x.2 hgenes l hfx pc hpcl
     have a1 := (mergeOverOrigin_ring r hcirc hL rules hrules _ found a0 hf).1
-    have a2 := applyExtenders_ring_area within r hcirc hL rules hgenes found ext d (fun pc hpc => (a1 pc hpc).1) hext
-    have a3 : ∀ pc ∈ kept, RingArea r.len pc.core := fun pc hpc => a2 pc (filterE_ok_sub _ ext kept hk pc hpc)
-    obtain ⟨m1, m2, _⟩ := mergeOverOrigin_ring r hcirc hL rules hrules kept merged a3 hm
+    have a2 := applyExtenders_ring_area within r hcirc hL rules hgenes found ext0 d (fun pc hpc => (a1 pc hpc).1) hext
+    obtain ⟨m1, m2, _⟩ := mergeOverOrigin_ring r hcirc hL rules hrules ext0 ext a2 hm
+    have hsub := filterE_sublist _ ext kept hk
     rw [hfin]
-    refine ⟨?_, m2⟩
+    refine ⟨?_, List.Pairwise.sublist hsub m2⟩
     intro o ho
-    have : o.pc ∈ merged := by rw [← hfin]; exact List.mem_map.2 ⟨o, ho, rfl⟩
-    exact (m1 _ this).1
+    have : o.pc ∈ kept := by rw [← hfin]; exact List.mem_map.2 ⟨o, ho, rfl⟩
+    exact (m1 _ (hsub.subset this)).1
 
 end ASV.Proto
